@@ -206,6 +206,14 @@ RegVerdict(e) ==
                   \cup (IF ~e.frame_other THEN {"other_data_unchanged"} ELSE {}),
        detail |-> IF wf # {} THEN one(wf) ELSE IF badbits # {} THEN one(badbits) ELSE IF notreg # {} THEN one(notreg) ELSE one(widen)]
 
+\* bilateral filter (C10): the spatial weight of a neighbour depends on its DISTANCE to the filtered pixel only. e.a[k], e.b[k]:
+\* outputs (in 1e-6 units) at the same pixel of two maps that differ by where a single outlier sits, at two positions equidistant
+\* from the pixel (left / right, up / down, the diagonals, a row neighbour / a column neighbour)
+BilSymVerdict(e) ==
+   LET bad == {k \in 1..Len(e.a) : Abs(e.a[k] - e.b[k]) > 1}
+   IN [failed |-> IF bad = {} THEN {} ELSE {"spatial_weight_symmetric"},
+       detail |-> IF bad = {} THEN <<>> ELSE LET k == CHOOSE j \in bad : TRUE IN <<k, e.a[k], e.b[k]>>]
+
 \* ------------------------------------------------------------------ occlusion / mismatch filling (C14)
 \* e: pass, rows, cols, before: [d, vm], after: [d, vm]   (d scaled by 8; NaN sentinel for NaN)
 FillPixelFail(e, x) ==
@@ -302,6 +310,7 @@ Verdict(e) == CASE e.step = "matching_cost" -> McVerdict(e)
                 [] e.step = "fill" -> FillVerdict(e)
                 [] e.step = "regularize" -> RegVerdict(e)
                 [] e.step = "filter" -> FiltVerdict(e)
+                [] e.step = "bilateral_symmetry" -> BilSymVerdict(e)
                 [] e.step = "cross_check" -> XcVerdict(e)
                 [] e.step = "refinement" -> RefVerdict(e)
                 [] e.step = "flags" -> FlagVerdict(e)
